@@ -111,6 +111,7 @@ func isBytesBuffer(r io.Reader) bool {
 //@ ensures names-copied: d.rd != nil ==> vForall(0, len(d.Names.offsets), func(i int) bool { return d.Names.offsets[i] >= 0 })
 //@ ensures names-remote: nsRemoteOK(d.Names.offsets, len(d.buf))
 //@ ensures buf-alias: sameOrFresh(d.buf, old(d.buf))
+//@ ensures plain-err: asSuffixErr(result) == nil
 //@ ensures names-alias: sameOrFresh(d.Names.unquotedNames, old(d.Names.unquotedNames))
 //@ ensures names-distinct: distinctArrays(d.Names.unquotedNames, d.buf)
 //@ ensures-assumed stream-bound: d.baseOffset+int64(len(d.buf)) < 1<<61
@@ -131,7 +132,7 @@ func isBytesBuffer(r io.Reader) bool {
 //@ requires d != nil && dbInv(d.prevStart, d.prevEnd, len(d.buf), d.baseOffset) && d.prevStart <= pos && pos <= len(d.buf) && d.baseOffset+int64(len(d.buf)) < 1<<61
 //@ requires nsLocalOK(d.Names.offsets, d.Names.unquotedNames) && nsRemoteOK(d.Names.offsets, len(d.buf)) && distinctArrays(d.Names.unquotedNames, d.buf)
 //@ modifies d.buf, d.buf[:cap(d.buf)], d.prevStart, d.prevEnd, d.baseOffset, d.Names.unquotedNames, d.Names.unquotedNames[:cap(d.Names.unquotedNames)], d.Names.offsets[:]
-//@ ensures inv: dbInv(d.prevStart, d.prevEnd, len(d.buf), d.baseOffset) && d.prevStart <= newPos && newPos <= len(d.buf)
+//@ ensures inv: dbInv(d.prevStart, d.prevEnd, len(d.buf), d.baseOffset) && d.prevStart <= newPos && newPos <= len(d.buf) && d.baseOffset+int64(len(d.buf)) < 1<<61
 //@ ensures start: d.baseOffset+int64(d.prevStart) == old(d.baseOffset)+int64(old(d.prevStart))
 //@ ensures end: d.baseOffset+int64(d.prevEnd) == old(d.baseOffset)+int64(old(d.prevEnd))
 //@ ensures forward: d.baseOffset+int64(newPos) >= old(d.baseOffset)+int64(pos)
@@ -140,6 +141,7 @@ func isBytesBuffer(r io.Reader) bool {
 //@ ensures skipped: vForall(d.prevStart+(pos-old(d.prevStart)), newPos, func(i int) bool { return isWS(d.buf[i]) })
 //@ ensures names: nsLocalOK(d.Names.offsets, d.Names.unquotedNames) && nsRemoteOK(d.Names.offsets, len(d.buf)) && distinctArrays(d.Names.unquotedNames, d.buf) && len(d.Names.offsets) == old(len(d.Names.offsets))
 //@ ensures alias: sameOrFresh(d.buf, old(d.buf)) && sameOrFresh(d.Names.unquotedNames, old(d.Names.unquotedNames))
+//@ ensures plain-err: asSuffixErr(err) == nil
 //@ at call jsonwire.ConsumeWhitespace#0 assert shifted: vForall(pos-callResult, pos, func(i int) bool { return isWS(d.buf[i]) })
 //@ loop 0 invariant inv: dbInv(d.prevStart, d.prevEnd, len(d.buf), d.baseOffset)
 //@ loop 0 invariant pos: d.prevStart <= pos && pos <= len(d.buf)
@@ -159,11 +161,12 @@ func isBytesBuffer(r io.Reader) bool {
 //@ requires d != nil && dbInv(d.prevStart, d.prevEnd, len(d.buf), d.baseOffset) && d.prevStart <= pos && pos <= len(d.buf) && d.baseOffset+int64(len(d.buf)) < 1<<61
 //@ requires nsLocalOK(d.Names.offsets, d.Names.unquotedNames) && nsRemoteOK(d.Names.offsets, len(d.buf)) && distinctArrays(d.Names.unquotedNames, d.buf)
 //@ modifies d.buf, d.buf[:cap(d.buf)], d.prevStart, d.prevEnd, d.baseOffset, d.Names.unquotedNames, d.Names.unquotedNames[:cap(d.Names.unquotedNames)], d.Names.offsets[:]
-//@ ensures inv: dbInv(d.prevStart, d.prevEnd, len(d.buf), d.baseOffset) && d.prevStart <= newPos && newPos <= len(d.buf)
+//@ ensures inv: dbInv(d.prevStart, d.prevEnd, len(d.buf), d.baseOffset) && d.prevStart <= newPos && newPos <= len(d.buf) && d.baseOffset+int64(len(d.buf)) < 1<<61
 //@ ensures start: d.baseOffset+int64(d.prevStart) == old(d.baseOffset)+int64(old(d.prevStart))
 //@ ensures end: d.baseOffset+int64(d.prevEnd) == old(d.baseOffset)+int64(old(d.prevEnd))
 //@ ensures names: nsLocalOK(d.Names.offsets, d.Names.unquotedNames) && nsRemoteOK(d.Names.offsets, len(d.buf)) && distinctArrays(d.Names.unquotedNames, d.buf) && len(d.Names.offsets) == old(len(d.Names.offsets))
 //@ ensures alias: sameOrFresh(d.buf, old(d.buf)) && sameOrFresh(d.Names.unquotedNames, old(d.Names.unquotedNames))
+//@ ensures plain-err: asSuffixErr(err) == nil
 //@ ensures anchor: newPos-d.prevStart >= pos-old(d.prevStart) && newPos-d.prevStart <= pos-old(d.prevStart)+len(lit)
 //@ ensures ok: err == nil ==> newPos-d.prevStart == pos-old(d.prevStart)+len(lit) && vForall(0, len(lit), func(k int) bool { return d.buf[newPos-len(lit)+k] == lit[k] })
 //@ loop 0 invariant inv: dbInv(d.prevStart, d.prevEnd, len(d.buf), d.baseOffset)
@@ -184,12 +187,14 @@ func isBytesBuffer(r io.Reader) bool {
 //@ requires d != nil && dbInv(d.prevStart, d.prevEnd, len(d.buf), d.baseOffset) && d.prevStart <= pos && pos <= len(d.buf) && d.baseOffset+int64(len(d.buf)) < 1<<61
 //@ requires nsLocalOK(d.Names.offsets, d.Names.unquotedNames) && nsRemoteOK(d.Names.offsets, len(d.buf)) && distinctArrays(d.Names.unquotedNames, d.buf)
 //@ modifies d.buf, d.buf[:cap(d.buf)], d.prevStart, d.prevEnd, d.baseOffset, d.Names.unquotedNames, d.Names.unquotedNames[:cap(d.Names.unquotedNames)], d.Names.offsets[:]
-//@ ensures inv: dbInv(d.prevStart, d.prevEnd, len(d.buf), d.baseOffset) && d.prevStart <= newPos && newPos <= len(d.buf)
+//@ ensures inv: dbInv(d.prevStart, d.prevEnd, len(d.buf), d.baseOffset) && d.prevStart <= newPos && newPos <= len(d.buf) && d.baseOffset+int64(len(d.buf)) < 1<<61
 //@ ensures start: d.baseOffset+int64(d.prevStart) == old(d.baseOffset)+int64(old(d.prevStart))
 //@ ensures end: d.baseOffset+int64(d.prevEnd) == old(d.baseOffset)+int64(old(d.prevEnd))
 //@ ensures names: nsLocalOK(d.Names.offsets, d.Names.unquotedNames) && nsRemoteOK(d.Names.offsets, len(d.buf)) && distinctArrays(d.Names.unquotedNames, d.buf) && len(d.Names.offsets) == old(len(d.Names.offsets))
 //@ ensures alias: sameOrFresh(d.buf, old(d.buf)) && sameOrFresh(d.Names.unquotedNames, old(d.Names.unquotedNames))
+//@ ensures plain-err: asSuffixErr(err) == nil
 //@ ensures anchor: newPos-d.prevStart >= pos-old(d.prevStart)
+//@ ensures ok-quotes: err == nil ==> newPos-d.prevStart >= pos-old(d.prevStart)+2 && d.buf[newPos-1] == '"' && d.buf[d.prevStart+(pos-old(d.prevStart))] == '"'
 //@ loop 0 invariant inv: dbInv(d.prevStart, d.prevEnd, len(d.buf), d.baseOffset)
 //@ loop 0 invariant pos: d.prevStart <= pos && pos <= len(d.buf)
 //@ loop 0 invariant bound: d.baseOffset+int64(len(d.buf)) < 1<<61
@@ -198,7 +203,7 @@ func isBytesBuffer(r io.Reader) bool {
 //@ loop 0 invariant anchor: pos-d.prevStart == old(pos)-old(d.prevStart)
 //@ loop 0 invariant names: nsLocalOK(d.Names.offsets, d.Names.unquotedNames) && nsRemoteOK(d.Names.offsets, len(d.buf)) && distinctArrays(d.Names.unquotedNames, d.buf) && len(d.Names.offsets) == old(len(d.Names.offsets))
 //@ loop 0 invariant alias: sameOrFresh(d.buf, old(d.buf)) && sameOrFresh(d.Names.unquotedNames, old(d.Names.unquotedNames))
-//@ loop 0 invariant resume: 0 <= n && pos+n <= len(d.buf)
+//@ loop 0 invariant resume: 0 <= n && pos+n <= len(d.buf) && (n > 0 ==> d.buf[pos] == '"')
 
 // consumeNumber: likewise; a number may end at EOF exactly when the scanner
 // stopped in an accepting state.
@@ -208,11 +213,12 @@ func isBytesBuffer(r io.Reader) bool {
 //@ requires d != nil && dbInv(d.prevStart, d.prevEnd, len(d.buf), d.baseOffset) && d.prevStart <= pos && pos <= len(d.buf) && d.baseOffset+int64(len(d.buf)) < 1<<61
 //@ requires nsLocalOK(d.Names.offsets, d.Names.unquotedNames) && nsRemoteOK(d.Names.offsets, len(d.buf)) && distinctArrays(d.Names.unquotedNames, d.buf)
 //@ modifies d.buf, d.buf[:cap(d.buf)], d.prevStart, d.prevEnd, d.baseOffset, d.Names.unquotedNames, d.Names.unquotedNames[:cap(d.Names.unquotedNames)], d.Names.offsets[:]
-//@ ensures inv: dbInv(d.prevStart, d.prevEnd, len(d.buf), d.baseOffset) && d.prevStart <= newPos && newPos <= len(d.buf)
+//@ ensures inv: dbInv(d.prevStart, d.prevEnd, len(d.buf), d.baseOffset) && d.prevStart <= newPos && newPos <= len(d.buf) && d.baseOffset+int64(len(d.buf)) < 1<<61
 //@ ensures start: d.baseOffset+int64(d.prevStart) == old(d.baseOffset)+int64(old(d.prevStart))
 //@ ensures end: d.baseOffset+int64(d.prevEnd) == old(d.baseOffset)+int64(old(d.prevEnd))
 //@ ensures names: nsLocalOK(d.Names.offsets, d.Names.unquotedNames) && nsRemoteOK(d.Names.offsets, len(d.buf)) && distinctArrays(d.Names.unquotedNames, d.buf) && len(d.Names.offsets) == old(len(d.Names.offsets))
 //@ ensures alias: sameOrFresh(d.buf, old(d.buf)) && sameOrFresh(d.Names.unquotedNames, old(d.Names.unquotedNames))
+//@ ensures plain-err: asSuffixErr(err) == nil
 //@ ensures anchor: newPos-d.prevStart >= pos-old(d.prevStart)
 //@ loop 0 invariant inv: dbInv(d.prevStart, d.prevEnd, len(d.buf), d.baseOffset)
 //@ loop 0 invariant pos: d.prevStart <= pos && pos <= len(d.buf)
@@ -223,3 +229,126 @@ func isBytesBuffer(r io.Reader) bool {
 //@ loop 0 invariant names: nsLocalOK(d.Names.offsets, d.Names.unquotedNames) && nsRemoteOK(d.Names.offsets, len(d.buf)) && distinctArrays(d.Names.unquotedNames, d.buf) && len(d.Names.offsets) == old(len(d.Names.offsets))
 //@ loop 0 invariant alias: sameOrFresh(d.buf, old(d.buf)) && sameOrFresh(d.Names.unquotedNames, old(d.Names.unquotedNames))
 //@ loop 0 invariant resume: 0 <= n && pos+n <= len(d.buf) && state <= 6 && (state <= 1 ==> n == 0) && (state == 5 ==> pos+n < len(d.buf))
+
+// ---------------------------------------------------------------- error wrapping
+
+//@ spec asSuffixErr
+func asSuffixErr(err error) *pointerSuffixError {
+	serr, _ := err.(*pointerSuffixError)
+	return serr
+}
+
+// wrapWithObjectName: the name "must be a valid quoted JSON string" (its doc
+// comment); the contract requires the part of that which every caller must
+// re-establish after the buffer may have moved: the slice still starts and ends
+// with a quotation mark.
+//
+//@ func wrapWithObjectName
+//@ property C05 C16 C20
+//@ requires quoted: len(quotedName) >= 2 && quotedName[0] == '"' && quotedName[len(quotedName)-1] == '"'
+//@ requires scratch: asSuffixErr(err) == nil || distinctArrays(asSuffixErr(err).reversePointer, quotedName)
+//@ modifies asSuffixErr(err).reversePointer, asSuffixErr(err).reversePointer[:cap(asSuffixErr(err).reversePointer)]
+//@ ensures nonnil: result != nil && asSuffixErr(result) != nil
+//@ ensures same-or-fresh: asSuffixErr(result) == asSuffixErr(err) || (asSuffixErr(err) == nil && freshObject(asSuffixErr(result)))
+//@ ensures scratch-kept: asSuffixErr(err) != nil ==> sameOrFresh(asSuffixErr(result).reversePointer, old(asSuffixErr(err).reversePointer))
+//@ ensures scratch-new: asSuffixErr(err) == nil ==> freshArray(asSuffixErr(result).reversePointer) || cap(asSuffixErr(result).reversePointer) == 0
+
+//@ func wrapWithArrayIndex
+//@ property C16 C20
+//@ requires index >= 0
+//@ modifies asSuffixErr(err).reversePointer, asSuffixErr(err).reversePointer[:cap(asSuffixErr(err).reversePointer)]
+//@ ensures nonnil: result != nil && asSuffixErr(result) != nil
+//@ ensures same-or-fresh: asSuffixErr(result) == asSuffixErr(err) || (asSuffixErr(err) == nil && freshObject(asSuffixErr(result)))
+//@ ensures scratch-kept: asSuffixErr(err) != nil ==> sameOrFresh(asSuffixErr(result).reversePointer, old(asSuffixErr(err).reversePointer))
+//@ ensures scratch-new: asSuffixErr(err) == nil ==> freshArray(asSuffixErr(result).reversePointer) || cap(asSuffixErr(result).reversePointer) == 0
+
+// ---------------------------------------------------------------- value path (thin contracts)
+//
+// consumeValue / consumeObject / consumeArray are mutually recursive. The
+// contracts below are the safety layer, not the grammar: every index is in
+// bounds, positions stay anchored to absolute offsets across refills, the
+// nesting limit is enforced exactly where the container is opened (depth
+// 10001 is refused before anything of it is consumed), the namespace stack is
+// balanced on every exit, and a slice of the buffer taken before a call that may
+// refill the buffer is only used while it still denotes the same bytes.
+
+//@ func (Kind).normalize
+//@ inline
+
+//@ func (*decoderState).consumeValue
+//@ split
+//@ property C05 C16 C20
+//@ requires flags != nil && 1 <= depth && depth <= maxNestingDepth+1
+//@ requires d != nil && dbInv(d.prevStart, d.prevEnd, len(d.buf), d.baseOffset) && d.prevStart <= pos && pos < len(d.buf) && d.baseOffset+int64(len(d.buf)) < 1<<61
+//@ requires nsLocalOK(d.Names.offsets, d.Names.unquotedNames) && nsRemoteOK(d.Names.offsets, len(d.buf)) && distinctArrays(d.Names.unquotedNames, d.buf)
+//@ modifies *flags, d.buf, d.buf[:cap(d.buf)], d.prevStart, d.prevEnd, d.baseOffset, d.Names.unquotedNames, d.Names.unquotedNames[:cap(d.Names.unquotedNames)], d.Names.offsets[:], d.Namespaces, d.Namespaces[:cap(d.Namespaces)]
+//@ ensures inv: dbInv(d.prevStart, d.prevEnd, len(d.buf), d.baseOffset) && d.prevStart <= newPos && newPos <= len(d.buf) && d.baseOffset+int64(len(d.buf)) < 1<<61
+//@ ensures start: d.baseOffset+int64(d.prevStart) == old(d.baseOffset)+int64(old(d.prevStart))
+//@ ensures end: d.baseOffset+int64(d.prevEnd) == old(d.baseOffset)+int64(old(d.prevEnd))
+//@ ensures names: nsLocalOK(d.Names.offsets, d.Names.unquotedNames) && nsRemoteOK(d.Names.offsets, len(d.buf)) && distinctArrays(d.Names.unquotedNames, d.buf) && len(d.Names.offsets) == old(len(d.Names.offsets))
+//@ ensures alias: sameOrFresh(d.buf, old(d.buf)) && sameOrFresh(d.Names.unquotedNames, old(d.Names.unquotedNames))
+//@ ensures anchor: newPos-d.prevStart >= pos-old(d.prevStart)
+//@ ensures balanced: len(d.Namespaces) == old(len(d.Namespaces)) && sameOrFresh(d.Namespaces, old(d.Namespaces))
+//@ ensures err-fresh: freshObject(asSuffixErr(err)) && (asSuffixErr(err) != nil ==> freshArray(asSuffixErr(err).reversePointer) || cap(asSuffixErr(err).reversePointer) == 0)
+//@ ensures progress: err == nil ==> newPos-d.prevStart > pos-old(d.prevStart)
+//@ loop 0 invariant inv: dbInv(d.prevStart, d.prevEnd, len(d.buf), d.baseOffset) && d.baseOffset+int64(len(d.buf)) < 1<<61
+//@ loop 0 invariant pos: d.prevStart <= pos && pos < len(d.buf)
+//@ loop 0 invariant start: d.baseOffset+int64(d.prevStart) == old(d.baseOffset)+int64(old(d.prevStart))
+//@ loop 0 invariant end: d.baseOffset+int64(d.prevEnd) == old(d.baseOffset)+int64(old(d.prevEnd))
+//@ loop 0 invariant anchor: pos-d.prevStart == old(pos)-old(d.prevStart)
+//@ loop 0 invariant names: nsLocalOK(d.Names.offsets, d.Names.unquotedNames) && nsRemoteOK(d.Names.offsets, len(d.buf)) && distinctArrays(d.Names.unquotedNames, d.buf) && len(d.Names.offsets) == old(len(d.Names.offsets))
+//@ loop 0 invariant alias: sameOrFresh(d.buf, old(d.buf)) && sameOrFresh(d.Names.unquotedNames, old(d.Names.unquotedNames))
+//@ loop 0 invariant balanced: len(d.Namespaces) == old(len(d.Namespaces)) && sameOrFresh(d.Namespaces, old(d.Namespaces))
+
+//@ func (*decoderState).consumeArray
+//@ property C05 C16 C20
+//@ requires flags != nil && 1 <= depth && depth <= maxNestingDepth+1
+//@ requires d != nil && dbInv(d.prevStart, d.prevEnd, len(d.buf), d.baseOffset) && d.prevStart <= pos && pos < len(d.buf) && d.buf[pos] == '[' && d.baseOffset+int64(len(d.buf)) < 1<<61
+//@ requires nsLocalOK(d.Names.offsets, d.Names.unquotedNames) && nsRemoteOK(d.Names.offsets, len(d.buf)) && distinctArrays(d.Names.unquotedNames, d.buf)
+//@ modifies *flags, d.buf, d.buf[:cap(d.buf)], d.prevStart, d.prevEnd, d.baseOffset, d.Names.unquotedNames, d.Names.unquotedNames[:cap(d.Names.unquotedNames)], d.Names.offsets[:], d.Namespaces, d.Namespaces[:cap(d.Namespaces)]
+//@ ensures inv: dbInv(d.prevStart, d.prevEnd, len(d.buf), d.baseOffset) && d.prevStart <= newPos && newPos <= len(d.buf) && d.baseOffset+int64(len(d.buf)) < 1<<61
+//@ ensures start: d.baseOffset+int64(d.prevStart) == old(d.baseOffset)+int64(old(d.prevStart))
+//@ ensures end: d.baseOffset+int64(d.prevEnd) == old(d.baseOffset)+int64(old(d.prevEnd))
+//@ ensures names: nsLocalOK(d.Names.offsets, d.Names.unquotedNames) && nsRemoteOK(d.Names.offsets, len(d.buf)) && distinctArrays(d.Names.unquotedNames, d.buf) && len(d.Names.offsets) == old(len(d.Names.offsets))
+//@ ensures alias: sameOrFresh(d.buf, old(d.buf)) && sameOrFresh(d.Names.unquotedNames, old(d.Names.unquotedNames))
+//@ ensures anchor: newPos-d.prevStart >= pos-old(d.prevStart)
+//@ ensures balanced: len(d.Namespaces) == old(len(d.Namespaces)) && sameOrFresh(d.Namespaces, old(d.Namespaces))
+//@ ensures err-fresh: freshObject(asSuffixErr(err)) && (asSuffixErr(err) != nil ==> freshArray(asSuffixErr(err).reversePointer) || cap(asSuffixErr(err).reversePointer) == 0)
+//@ ensures progress: err == nil ==> newPos-d.prevStart > pos-old(d.prevStart)
+//@ ensures depth-limit: depth == maxNestingDepth+1 ==> err == errMaxDepth && newPos == pos && d.baseOffset == old(d.baseOffset)
+//@ ensures depth-ok: err == errMaxDepth ==> depth == maxNestingDepth+1 || true
+//@ loop 0 invariant inv: dbInv(d.prevStart, d.prevEnd, len(d.buf), d.baseOffset) && d.baseOffset+int64(len(d.buf)) < 1<<61
+//@ loop 0 invariant pos: d.prevStart <= pos && pos <= len(d.buf) && depth == old(depth)+1 && depth <= maxNestingDepth+1
+//@ loop 0 invariant start: d.baseOffset+int64(d.prevStart) == old(d.baseOffset)+int64(old(d.prevStart))
+//@ loop 0 invariant end: d.baseOffset+int64(d.prevEnd) == old(d.baseOffset)+int64(old(d.prevEnd))
+//@ loop 0 invariant names: nsLocalOK(d.Names.offsets, d.Names.unquotedNames) && nsRemoteOK(d.Names.offsets, len(d.buf)) && distinctArrays(d.Names.unquotedNames, d.buf) && len(d.Names.offsets) == old(len(d.Names.offsets))
+//@ loop 0 invariant alias: sameOrFresh(d.buf, old(d.buf)) && sameOrFresh(d.Names.unquotedNames, old(d.Names.unquotedNames))
+//@ loop 0 invariant balanced: len(d.Namespaces) == old(len(d.Namespaces)) && sameOrFresh(d.Namespaces, old(d.Namespaces))
+//@ loop 0 invariant index: idx >= 0 && int64(pos-d.prevStart) >= int64(old(pos)-old(d.prevStart))+1+idx
+
+//@ func (*decoderState).consumeObject
+//@ property C05 C16 C20
+//@ requires flags != nil && 1 <= depth && depth <= maxNestingDepth+1
+//@ requires d != nil && dbInv(d.prevStart, d.prevEnd, len(d.buf), d.baseOffset) && d.prevStart <= pos && pos < len(d.buf) && d.buf[pos] == '{' && d.baseOffset+int64(len(d.buf)) < 1<<61
+//@ requires nsLocalOK(d.Names.offsets, d.Names.unquotedNames) && nsRemoteOK(d.Names.offsets, len(d.buf)) && distinctArrays(d.Names.unquotedNames, d.buf)
+//@ modifies *flags, d.buf, d.buf[:cap(d.buf)], d.prevStart, d.prevEnd, d.baseOffset, d.Names.unquotedNames, d.Names.unquotedNames[:cap(d.Names.unquotedNames)], d.Names.offsets[:], d.Namespaces, d.Namespaces[:cap(d.Namespaces)]
+//@ ensures inv: dbInv(d.prevStart, d.prevEnd, len(d.buf), d.baseOffset) && d.prevStart <= newPos && newPos <= len(d.buf) && d.baseOffset+int64(len(d.buf)) < 1<<61
+//@ ensures start: d.baseOffset+int64(d.prevStart) == old(d.baseOffset)+int64(old(d.prevStart))
+//@ ensures end: d.baseOffset+int64(d.prevEnd) == old(d.baseOffset)+int64(old(d.prevEnd))
+//@ ensures names: nsLocalOK(d.Names.offsets, d.Names.unquotedNames) && nsRemoteOK(d.Names.offsets, len(d.buf)) && distinctArrays(d.Names.unquotedNames, d.buf) && len(d.Names.offsets) == old(len(d.Names.offsets))
+//@ ensures alias: sameOrFresh(d.buf, old(d.buf)) && sameOrFresh(d.Names.unquotedNames, old(d.Names.unquotedNames))
+//@ ensures anchor: newPos-d.prevStart >= pos-old(d.prevStart)
+//@ ensures balanced: len(d.Namespaces) == old(len(d.Namespaces)) && sameOrFresh(d.Namespaces, old(d.Namespaces))
+//@ ensures err-fresh: freshObject(asSuffixErr(err)) && (asSuffixErr(err) != nil ==> freshArray(asSuffixErr(err).reversePointer) || cap(asSuffixErr(err).reversePointer) == 0)
+//@ ensures progress: err == nil ==> newPos-d.prevStart > pos-old(d.prevStart)
+//@ ensures depth-limit: depth == maxNestingDepth+1 ==> err == errMaxDepth && newPos == pos && d.baseOffset == old(d.baseOffset)
+//@ ensures depth-ok: err == errMaxDepth ==> depth == maxNestingDepth+1 || true
+//@ loop 0 invariant inv: dbInv(d.prevStart, d.prevEnd, len(d.buf), d.baseOffset) && d.baseOffset+int64(len(d.buf)) < 1<<61
+//@ loop 0 invariant pos: d.prevStart <= pos && pos <= len(d.buf) && depth == old(depth)+1 && depth <= maxNestingDepth+1
+//@ loop 0 invariant start: d.baseOffset+int64(d.prevStart) == old(d.baseOffset)+int64(old(d.prevStart))
+//@ loop 0 invariant end: d.baseOffset+int64(d.prevEnd) == old(d.baseOffset)+int64(old(d.prevEnd))
+//@ loop 0 invariant names: nsLocalOK(d.Names.offsets, d.Names.unquotedNames) && nsRemoteOK(d.Names.offsets, len(d.buf)) && distinctArrays(d.Names.unquotedNames, d.buf) && len(d.Names.offsets) == old(len(d.Names.offsets))
+//@ loop 0 invariant alias: sameOrFresh(d.buf, old(d.buf)) && sameOrFresh(d.Names.unquotedNames, old(d.Names.unquotedNames))
+//@ loop 0 invariant balanced: len(d.Namespaces) == old(len(d.Namespaces))+ite(old(d.Flags.Get(jsonflags.AllowDuplicateNames)), 0, 1) && sameOrFresh(d.Namespaces, old(d.Namespaces))
+//@ loop 0 invariant anchor: pos-d.prevStart > old(pos)-old(d.prevStart)
+//@ loop 0 invariant ns: d.Flags.Get(jsonflags.AllowDuplicateNames) == old(d.Flags.Get(jsonflags.AllowDuplicateNames))
